@@ -18,6 +18,10 @@ CLAIMED = {
          "Random histories (<=120 ops) over 1-4 aliased tables through the host API (insert/get/append/pop/remove/len/nth_key/iter/keys), keys chosen to collide in the table's hash part at every capacity of its growth sequence and to probe value equality (fresh string objects per lookup, ints/reals/nil, reserved-hash ints); a Vec<(key,value)> model is compared after every operation on every table: length, full iteration order, keys(), nth_key and get of every present key. Search, not proof; the script-card path is covered by the program-level checks, not here.",
          "Trusts the 20-line Vec model; memory limit raised so that no collection interferes (GC is C02's subject).",
          "DESIGN.md section 4, C07"),
+ "C16": ("exploration", "proptest-driven model-based testing of edit histories against a plain tree-edit model with an independent child-numbering table",
+         "Arbitrary modules (every card kind in every slot, unique card ids) and histories of get/insert/remove/replace/swap/walk plus the law pairs insert;remove, replace;replace-back, swap;swap, with indices valid w.r.t. the evolving model or invalid in a specific way; Ok/Err, the resulting id-tree, serde_json text after failed edits and child count/enumeration/lookup agreement are checked after every op.",
+         "Trusts the tree model and its list-vs-fixed-slot table (taken from the doc comment of insert_child); swap(a,a) is taken to be the identity.",
+         "DESIGN.md section 4, C16"),
  "C19": ("exploration", "proptest-driven algebraic-law checking over generated value triples with a numeric reference model for the ordering",
          "Random triples of host-constructed values with deliberately related members (equal-content copies, reordered/prefix/deep-different tables, int/real twins, length twins, signed zeros, 2^53/2^63 edges); all ordered pairs are checked against the equivalence, hash-consistency (std hash and table-key aliasing), order/equality coherence, asymmetry and numeric-model laws exactly on the domains the statement gives. Search, not proof.",
          "The numeric model encodes the statement's coercions (nil=0, string/table=length against a number); ints beyond 2^53 against reals and reordered tables are observed, not asserted.",
